@@ -31,57 +31,23 @@ def canary():
 
 def run(ctx):
     progs = programs(ctx)
-    crates = []
-    per = 60
-    results, rejected, n_h = {}, {}, 0
-    total_fail = 0
-    kani_wall = 0
-    for ci in range(0, len(progs), per):
-        c = E.ECrate("C01", "c%02d" % (ci // per))
-        for p in progs[ci:ci + per]:
-            c.add(p)
-        if ci == 0:
-            c.add(canary())
-        c.write()
-        rej = c.triage()
-        rejected.update(rej)
-        res = c.run_kani()
-        if ci == 0:
-            can = [h for h in res if h.startswith("p_canary::")]
-            if not can or any(res[h]["ok"] for h in can):
-                raise Undecided("canary contract was not refuted: the Kani pipeline is blind")
-            for h in can:
-                del res[h]
-            c.progs = [p for p in c.progs if p.name != "p_canary"]
-        n_h += len(res)
-        total_fail += E.decide(ctx, c, res, lambda prog, h: "E:C01:%s:%s" % (prog.meta["describe"], h), lambda prog: prog.meta["describe"])
-        results.update({c.name + "/" + k: v for k, v in res.items()})
-        kani_wall += c.kani_wall
-    byname = {p.name: p for p in progs}
-    for pn, diags in rejected.items():
-        prog = byname.get(pn)
-        if prog is None:
-            continue
-        ctx.violation("E:C01:compile:%s" % prog.meta["describe"], "accepted program does not compile: %s" % diags[0]["message"],
-                      {"layer": "E", "program": prog.text, "harness": "", "meta": prog.meta, "rustc": diags[:3]})
+    st = E.run_family(ctx, "C01", progs, canary())
     g = glayer.run_g(ctx, G_UNITS)
-    ok = sum(1 for r in results.values() if r["ok"])
     ctx.assumptions += [
         "layer E: Kani 0.68 / CBMC 6.11 (bit-precise machine integers), Kani's contract instrumentation; harnesses are loop-free over full-domain symbolic inputs => complete per program",
+        "layer E: partial_cmp postconditions are asserted in plain loop-free #[kani::proof] harnesses (contract instrumentation of Option::map(_, Ordering::reverse) costs minutes); eq/cmp use proof_for_contract",
         "layer E: programs are an enumerated family (seeded); shapes <= 4 fields / 4 variants; reference rule = lib/cmpfam.py written from the documented rule",
         "layer G: see evidence of C05 for the prelude stand-ins",
     ]
-    cov = {
-        "obligations": n_h + g["obligations"], "discharged": ok + g["discharged"],
+    cov = dict(st)
+    cov.update({
+        "obligations": st["kani_harnesses"] + g["obligations"], "discharged": st["kani_verified"] + g["discharged"],
         "checker_cmd": "cargo kani -Z function-contracts -j 16 --output-format terse (crates build/e/C01/*) ; verus build/g/cmp_flags.rs",
         "trusted_base": ["Kani 0.68.0 / CBMC 6.11", "rustc (proc-macro expansion of the real /repo/derive-ex)", "Verus/Z3 for layer G"],
-        "programs": len(progs), "kani_harnesses": n_h, "kani_verified": ok, "kani_wall_s": round(kani_wall, 1),
-        "programs_rejected_by_rustc": len(rejected),
         "functions_under_contract": ["w_eq/w_partial_cmp/w_cmp wrappers of the generated PartialEq::eq, PartialOrd::partial_cmp, Ord::cmp of every program"] + g["functions_under_contract"],
-        "g_units": g["units"],
+        "g_units": g["units"], "solver_ms_verus": g["smt_ms"],
         "samples": [p.meta["describe"] for p in progs[:5]],
-        "canary_refuted": True,
-    }
+    })
     return ctx.finish(LEVEL, cov)
 
 
